@@ -145,6 +145,14 @@ class World:
                     last = ms[-1]; rest = name[last.end():]
                     if re.fullmatch(r'::\w+', rest):
                         im = self.tt.impl_at(last.group(1), int(last.group(2)), int(last.group(3)))
+                        if im is None and name[:last.start()].rstrip(':') and re.search(r'(^|::)[a-z_]\w*::$', name[:last.start()]):
+                            # an impl block local to a function body is not in the rustdoc output: inherent impl, self type read from the receiver
+                            head = f.text[st:f.text.index('\n', st)]
+                            mm = re.search(r'\(_1: (?:&mut |&)?([\w:]+)', head)
+                            if mm:
+                                from .typetab import Impl
+                                im = Impl(); im.crate = c; im.file = last.group(1); im.line = int(last.group(2)); im.col = int(last.group(3)); im.self_ty = None
+                                im.trait = None; im.trait_args = None; im.methods = []; im.self_key = mm.group(1).split('::')[-1]; im.self_adt = None; im.generics = []
                         self.methods.setdefault(rest[2:], []).append((c, name, im))
                     continue
                 self.free.setdefault(name, []).append((c, name))
